@@ -74,21 +74,21 @@ type BatchContext struct {
 }
 
 type BatchStats struct {
-	Property   string           `json:"property"`
-	Tier       string           `json:"tier"`
-	Seed       uint64           `json:"seed"`
-	ID         int              `json:"id"`
-	Runs       int              `json:"runs"`
-	Steps      int64            `json:"steps"`
-	Counters   map[string]int64 `json:"counters"`
-	Distinct   int              `json:"distinct_in_process"`
-	Violations []string         `json:"violation_files"`
-	Known      []string         `json:"known_finding_files"`
-	Samples    [][]string       `json:"samples"`
-	WallS      float64          `json:"wall_s"`
-	TapeLens   int64            `json:"tape_entries"`
+	Property   string                 `json:"property"`
+	Tier       string                 `json:"tier"`
+	Seed       uint64                 `json:"seed"`
+	ID         int                    `json:"id"`
+	Runs       int                    `json:"runs"`
+	Steps      int64                  `json:"steps"`
+	Counters   map[string]int64       `json:"counters"`
+	Distinct   int                    `json:"distinct_in_process"`
+	Violations []string               `json:"violation_files"`
+	Known      []string               `json:"known_finding_files"`
+	Samples    [][]string             `json:"samples"`
+	WallS      float64                `json:"wall_s"`
+	TapeLens   int64                  `json:"tape_entries"`
 	Info       map[string]interface{} `json:"info,omitempty"`
-	Stopped    string           `json:"stopped,omitempty"`
+	Stopped    string                 `json:"stopped,omitempty"`
 }
 
 func die(code int, format string, a ...interface{}) {
